@@ -221,6 +221,20 @@ def gen_flow(rng):
             ns[trig]["sig"]["ran"].append([b, "run"])
         else:
             starting.append(b)
+    # optional fan-in switch: two starters both trigger one If; between the two triggers a node runs that flips the If's
+    # condition (its newest data connection) -- the first evaluation's branch signal is still queued at that moment
+    if rng.random() < 0.15:
+        a, b, c, f, ta, fa = n, n + 1, n + 2, n + 3, n + 4, n + 5
+        first = rng.choice([0, 1])
+        ns.append({"kind": ["lin", 3], "ins": [{"init": 1, "conns": []}], "sig": {"ran": [[f, "run"], [c, "run"]]}})
+        ns.append({"kind": ["lin", 4], "ins": [{"init": 2, "conns": []}], "sig": {"ran": [[f, "run"]]}})
+        ns.append({"kind": ["lt", 5], "ins": [{"init": 9 if first else 2, "conns": []}], "sig": {"ran": []}})
+        ns.append({"kind": ["if"], "ins": [{"init": first, "conns": [c]}],
+                   "sig": {"ran": [], "true": [[ta, "run"]], "false": [[fa, "run"]]}})
+        ns.append({"kind": ["lin", 17], "ins": [{"init": 1, "conns": []}], "sig": {"ran": []}})
+        ns.append({"kind": ["lin", 19], "ins": [{"init": 2, "conns": []}], "sig": {"ran": []}})
+        starting += [a, b]
+        n += 6
     return {"fam": "flow", "nodes": ns, "starting": starting, "again": rng.random() < 0.35}
 
 
